@@ -269,6 +269,26 @@ func c16Run(it c16Item) error {
 		if len(o.S.Draws) != 200*2 {
 			return fmt.Errorf("the retry budget is documented as 200 attempts; on an all-fail stream Generate made %d draws = %.1f attempts", len(o.S.Draws), float64(len(o.S.Draws))/2)
 		}
+	case "tolerance":
+		// "a tolerated overall failure probability of 1e-9 with 200 attempts":
+		// one attempt succeeds with probability k/u; recipes on either side of the limit
+		for _, ku := range [][2]int{{5, 51}, {6, 61}, {10, 102}, {11, 112}, {16, 163}, {1, 10}, {10, 101}, {2, 21}, {3, 31}, {9, 91}} {
+			k, u := ku[0], ku[1]
+			sp := oracle.CharSpec{Length: 1}
+			req := ""
+			for i := 0; i < u; i++ {
+				ch := string(rune(0x4E00 + i))
+				if i < k {
+					req += ch
+				} else {
+					sp.AllowChars += ch
+				}
+			}
+			sp.RequireSets = []string{req}
+			if err := c13Run(c13Case{Spec: sp, MaxTrials: 200, MaxFail: 1e-9, Key: uint64(u)}); err != nil && !ev.IsSkip(err) {
+				return fmt.Errorf("%d required characters in an alphabet of %d (success chance %.5f per attempt): %w", k, u, float64(k)/float64(u), err)
+			}
+		}
 	case "class_filter":
 		// a class required through its flag, in an alphabet padded with every
 		// other printable ASCII character: exactly the documented members satisfy it
@@ -355,7 +375,7 @@ func TestC16(t *testing.T) {
 		for i := 0; i < 7; i++ {
 			items = append(items, c16Item{What: "preset", Arg: i})
 		}
-		items = append(items, c16Item{What: "list", Arg: 0}, c16Item{What: "list", Arg: 1}, c16Item{What: "budget"})
+		items = append(items, c16Item{What: "list", Arg: 0}, c16Item{What: "list", Arg: 1}, c16Item{What: "budget"}, c16Item{What: "tolerance"})
 		for i := 0; i < 5; i++ {
 			items = append(items, c16Item{What: "class_filter", Arg: i})
 		}
